@@ -37,6 +37,9 @@ EVENTS = [
     ('AUTH-plain-ok', ('AUTH PLAIN %s\r\n' % _plain).encode()), ('AUTH-bad-base64', b'AUTH PLAIN !!!\r\n'),
     ('AUTH-noarg', b'AUTH\r\n'), ('FOO', b'FOO bar\r\n'), ('empty-line', b'\r\n'),
     ('EHLO-nonutf8', b'EHLO \xff\r\n'),
+    ('MAIL-quoted', b'MAIL FROM:<"a\\">b"@x>\r\n'),              # legal: escaped quote and > inside a quoted local part
+    ('MAIL-bad-quoted', b'MAIL FROM:<"abc\\">\r\n'),             # malformed: the quoted string never ends
+    ('RCPT-quoted', b'RCPT TO:<"c\\">d"@y>\r\n'),
     ('XHELP', b'XHELP\r\n'),                # an application command answered 214: a 2xx code that does not close
     ('XCUST', b'XCUST now\r\n'),
     # a command pipelined in the same segment as the end-of-data line (accepted and over-size message)
